@@ -101,6 +101,46 @@ CLAIMED["C19"] = dict(
     note=TRUST + "; sqlite3 for deriving/reading importer databases; state-to-row matching by exact float equality",
     engine="importer")
 
+CLAIMED["C06"] = dict(
+    text=("TLC enumerates LinearGaussian.tla, an exact-rational Kalman reference (QMatrices.tla: checked 32-bit rational matrices) that "
+          "states the two resampling modes and the covariance invariants (WeightsSumToOne, Symmetric, PSD, PosteriorIsPriorMinusKSKt, "
+          "PosteriorLePrior, NoObsReturnsPropagatedMean, RedrawIsTextbookKalman, NoRedrawIsVariant) over 1-2-state systems, stacks of "
+          "simultaneous observations, 1-2 steps and rational unscented-transform tunings; every behaviour is replayed into the real "
+          "UnscentedKalmanFilter through its result objects and must agree with the rationals to 1e-9. For dimensions 1-8, dense "
+          "matrices and up to 4 stacked observations the same relations are evaluated on logged matrices and validated by TLC against "
+          "TraceLinearGaussian.tla as integer-projected residuals (relations only)."),
+    ref="5 C06", technique="TLA+ exact-rational spec LinearGaussian.tla + TLC as oracle; spec->impl replay into the real UKF; trace validation of integer-projected residuals",
+    note=TRUST + "; QMatrices.tla overflow guards; numpy for float residuals; linear Dynamics/MeasurementType adapters in the driver; exact equality with the Kalman filter only for dimension <= 2",
+    engine="linear-gaussian")
+CLAIMED["C12"] = dict(
+    text=("TLC checks OrbitLattice.tla exhaustively (rational Kepler orbits: 7 families x 88 orientations x 4 anomalies; vis-viva, "
+          "constant angular momentum, element and equinoctial round trips, singular-case classification as invariants; the as-coded "
+          "retrograde convention is refuted as a spec mutant). Every lattice state is replayed into the real eci2coe/coe2eci/eci2eqe/"
+          "eqe2eci/coe2eqe/eqe2coe, the element classes, the anomaly conversions and the three StateConfig descriptions; threshold-"
+          "straddling and seeded generic orbits are checked as round-trip relations."),
+    ref="5 C12", technique="TLA+ exact-lattice spec OrbitLattice.tla + TLC as oracle; spec->impl replay",
+    note=TRUST + "; Rationals.tla; math.pi and math.acos multiply the spec's exact rational coefficients; documented unit scaling; non-lattice orbits only as relations",
+    engine="orbit-lattice")
+CLAIMED["C16"] = dict(
+    text=("TLC checks Angles.tla (wrap, residual and circular-mean identities on the circle Z_24 with turn offsets and both wrap branches, "
+          "exact circular mean in Q(sqrt2, sqrt3) incl. negative centre weights) and ObsGroup.tla (the symmetry group of a stacked "
+          "measurement: turn offsets, wrap-point moves, all 24 orders of four mixed observations, with the action property that the "
+          "abstract posterior is unchanged). Every helper state is replayed into the real maths.py helpers against an exact rational "
+          "oracle of the float inputs; every group behaviour is replayed into a real UnscentedKalmanFilter.update on seam-straddling "
+          "geometries for six sigma-point weightings (posterior equal to 1e-9, 1e-7 under reordering; innovations in (-pi, pi])."),
+    ref="5 C16", technique="TLA+ specs Angles.tla / ObsGroup.tla + TLC; spec->impl replay into helpers and the real UKF",
+    note=TRUST + "; tick-to-radian projection; 7-entry cosine table (identities checked by TLC); tolerance plus a weight-conditioning floor for the default tuning",
+    engine="angles")
+CLAIMED["C20"] = dict(
+    text=("OrbitLattice.tla supplies exact end-point velocities and times of flight (rational coefficients of pi and acos e) for all "
+          "90/270 degree lattice arcs; both real Lambert solvers must return them to 1e-8. Seeded arcs are closed through the "
+          "repository's own Kepler solver with a sensitivity-bounded tolerance; the radar-observation inversion is checked against "
+          "the real measurement model; LambertIOD runs through a real in-memory database against exact circular lattice orbits and "
+          "seeded near-circular ones up to 40 % of a period apart."),
+    ref="5 C20", technique="TLA+ exact-lattice spec OrbitLattice.tla + TLC as oracle; spec->impl replay; relations on seeded arcs",
+    note=TRUST + "; Rationals.tla; math.pi/math.acos; non-lattice arcs, radar inversion and seeded IOD are relations between implementation functions",
+    engine="orbit-lattice")
+
 NOT_APPLICABLE = {
     "C13": ("an explicit TLA+ specification cannot evaluate a degree-20 spherical-harmonic gradient or analytic ephemerides; "
             "the property IS equality with an independent numerical reference, which would be differential testing, a "
